@@ -1,1 +1,6 @@
-/-! # C11 — property theorems (stub: not built yet) -/
+import PymocaVerif.Lemmas.GenEq
+/-! # C11 — property theorems (in progress) -/
+namespace PymocaVerif.Gen
+open PymocaVerif.ExprSem
+theorem forloop_range (a s b : Int) : arangeCode a s b = modelicaRange a s b := arangeCode_eq a s b
+end PymocaVerif.Gen
